@@ -16,6 +16,13 @@ Ltac qabs :=
         by (apply (Qabs_case z (fun a => (0 <= z /\ a == z) \/ (z <= 0 /\ a == - z))); intro; [left | right]; split; auto; reflexivity);
       set (a := Qabs z) in *; clearbody a; destruct H as [[? ?] | [? ?]]
   end.
+(* split the equality tests first (they may sit inside an absolute value), then simplify the exposed conditionals *)
+Ltac qeq_first :=
+  repeat match goal with
+  | |- context [Qeq_bool ?u ?v] =>
+      let H := fresh "Hc" in pose proof (Qeq_bool_spec u v) as H; destruct (Qeq_bool u v)
+  end;
+  cbn -[Qle_bool Qeq_bool Qmult Qplus Qminus Qopp Qabs].
 Ltac kernel_unfold :=
   unfold gen_comparative_discretise, gen_inequality_modes, gen_equality_modes, discretise_spec, rel_holdsb;
   cbn [mode_lookup assoc mode_name mode_is mode_in op_of_mode existsb cmpop_eqb orb andb negb String.eqb Ascii.eqb Bool.eqb
@@ -42,7 +49,7 @@ Lemma discretise_ok r x c tol m : 0 <= tol -> In m [MStr (mode_name r); MOp r] -
 Proof.
   intros Ht [<- | [<- | []]]; destruct r; kernel_unfold; xunf;
   cbn -[Qle_bool Qeq_bool Qmult Qplus Qminus Qopp Qabs]; unfold Qminus; do 2 f_equal;
-  qabs; qcmp; cbn; auto; exfalso; lra.
+  qeq_first; qabs; qcmp; cbn; auto; exfalso; lra.
 Qed.
 
 (* the specification in words: 1 iff the relation holds, 0 iff it does not (finite values) *)
@@ -106,7 +113,7 @@ Lemma complement_finite r x c tol m m' :
 Proof.
   intros [<- | [<- | []]] [<- | [<- | []]]; destruct r; kernel_unfold; cbn [complement mode_name]; kernel_unfold;
   do 2 eexists; (split; [reflexivity | split; [reflexivity |]]); xunf;
-  cbn -[Qle_bool Qeq_bool Qmult Qplus Qminus Qopp Qabs]; qabs; qcmp; cbn; try reflexivity; try lra; exfalso; lra.
+  cbn -[Qle_bool Qeq_bool Qmult Qplus Qminus Qopp Qabs]; qeq_first; qabs; qcmp; cbn; try reflexivity; try lra; exfalso; lra.
 Qed.
 Definition is_inequality (r : cmpop) : bool := match r with OpEq | OpNe => false | _ => true end.
 Lemma complement_inequality_any r d c tol m m' : is_inequality r = true -> d <> XNaN -> c <> XNaN ->
